@@ -565,3 +565,53 @@ Definition w_atomname := mk "ATOM" "7" "C" "CA" Dot "LYS" "A" Qm "-10.123" "16.5
 Definition w_noauth := mkrow (Tok "ATOM") (Tok "7") (Tok "C") (Tok "CA") Dot (Tok "LYS") (Tok "A") Qm
   (Tok "-10.123") (Tok "16.581") (Tok "2.104") (Tok "1.00") (Tok "20.55") (Tok "-2") (Tok "12") Qm (Tok "A") Absent (Tok "1").
 Definition fixed_witnesses := [w_plain; w_alt; w_name4; w_ins; w_wide; w_occ; w_label; w_charge; w_comp; w_atomname; w_noauth].
+
+(* ---- cif.read_cif: the other category handlers run before (header, title, compnd, source,
+        keywds, expdata, author, ssbond, cispep, cryst1, origxn, scalen) and after (conect)
+        atom_site; each returns (records, error names) or raises.  Their records are opaque
+        here ([O]); only their not raising matters for the atoms. --------------------------- *)
+
+Inductive frec (O : Type) := FOther (o : O) | FSite (r : record).
+Arguments FOther {O} o.
+Arguments FSite {O} r.
+
+Definition hres (O : Type) : Type := res (list O * list string).
+
+Fixpoint run_handlers {O : Type} (hs : list (hres O)) : hres O :=
+  match hs with
+  | [] => Ok ([], [])
+  | h :: t =>
+      p <- h ;; q <- run_handlers t ;;
+      Ok ((fst p ++ fst q)%list, (snd p ++ snd q)%list)
+  end.
+
+(* pdblist = head + ... + sc + ato + con ; errlist likewise; the first raise ends the call *)
+Definition read_cif {O : Type} (mv : mvconv) (rows : list row) (pre post : list (hres O))
+  : res (list (frec O) * list string) :=
+  a <- run_handlers pre ;;
+  let o := atom_site mv rows in
+  match o_exn o with
+  | Some e => Err e
+  | None =>
+      c <- run_handlers post ;;
+      Ok ((map FOther (fst a) ++ map FSite (o_recs o) ++ map FOther (fst c))%list,
+          (snd a ++ o_errs o ++ snd c)%list)
+  end.
+
+(* the coordinate records of the result *)
+Definition site_recs {O : Type} (l : list (frec O)) : list record :=
+  flat_map (fun x => match x with FSite r => [r] | FOther _ => [] end) l.
+
+(* cif._optional_records(handler, block) (fix_c10_r4): a handler that raises AttributeError,
+   IndexError, KeyError, TypeError or ValueError yields no records and its own name in the error
+   list.  Every exception this model has (TypeError, ValueError, IndexError) is in that tuple. *)
+Definition optional_records {O : Type} (h : string * hres O) : hres O :=
+  match snd h with
+  | Ok p => Ok p
+  | Err (TypeError | ValueError | IndexError) => Ok ([], [fst h])
+  end.
+
+(* read_cif as repaired: the 13 non-coordinate handlers go through _optional_records, atom_site does not *)
+Definition read_cif_guarded {O : Type} (mv : mvconv) (rows : list row) (pre post : list (string * hres O))
+  : res (list (frec O) * list string) :=
+  read_cif mv rows (map optional_records pre) (map optional_records post).
